@@ -392,6 +392,8 @@ def gen_cases(rnd, tier):
     from harness import c07lattice
     cases += c07lattice.sibling_cases(rnd, tier)
     cases += c07lattice.falsy_cases(rnd, tier)
+    for i, c in enumerate(cases):
+        c["history"] = "other-mapper-first" if (i // 2) % 2 else "fresh"
     return cases
 
 
@@ -641,6 +643,17 @@ def run_impl(case, idx, prefix="C"):
     inst = build_instance(h, x, classes)
     ovr = realize_amap(ov) if ov else None
     obs = {}
+    if case.get("history") == "other-mapper-first":
+        # the process-wide cache aggregated_mapper_by_class has already served this class under ANOTHER
+        # explicit mapper (or none) and under both values of the flag
+        names = [f[0] for f in all_fields(h)]
+        other = None if ovr else {names[0]: "zz_pre", names[-1]: "zz_pre2"}
+        for flag in (True, False):
+            try:
+                serialize(inst, mapper=copy.deepcopy(other), camel_case_convert=flag)
+                deserialize_structure(cls, {}, mapper=copy.deepcopy(other), camel_case_convert=flag, keep_undefined=False)
+            except Exception:  # noqa
+                pass
     order = [False, True] if idx % 2 == 0 else [True, False]
     for flag in order:
         o = {}
@@ -822,7 +835,8 @@ def canon_keys(t):
 
 
 def replay(obj):
-    case = {"h": obj["h"], "override": obj.get("override"), "x": obj["x"], "entry": obj.get("entry", "wrapper")}
+    case = {"h": obj["h"], "override": obj.get("override"), "x": obj["x"], "entry": obj.get("entry", "wrapper"),
+            "history": obj.get("history", "fresh")}
     if obj.get("wrapper"):
         return replay_wrapper(obj)
     obs, src, cls, inst = run_impl(case, 0, prefix="R%d" % random.randrange(10 ** 6))
@@ -953,6 +967,7 @@ def run(rep, tier):
         rep.stat(stream, "depth:%d" % len(case["h"]["levels"]))
         rep.stat(stream, "nested:" + ("+".join(nest) or "flat"))
         rep.stat(stream, "entry:" + case.get("entry", "wrapper"))
+        rep.stat(stream, "history:" + case.get("history", "fresh"))
         rep.stat(stream, "sibling-name-reused-as-key:%s" % sibling_reuse(case["h"], used_list(case["h"], case["override"], False)))
         for n, v in case["x"]:
             if v[0] == "s":
@@ -1067,7 +1082,7 @@ def run(rep, tier):
                 key = "C07/keys/not-the-image-under-the-declared-chain"
                 what = ("aggregated mapper or serialized key set differs from rename_chain over the declared mappers "
                         "(and from the model of the pinned code)")
-            rep.finding(key, what, {"h": c["h"], "override": c["override"], "x": c["x"], "entry": c.get("entry", "wrapper"), "clause": "keys",
+            rep.finding(key, what, {"h": c["h"], "override": c["override"], "x": c["x"], "entry": c.get("entry", "wrapper"), "history": c.get("history", "fresh"), "clause": "keys",
                                     "python": python_src(c, o[1])})
         for flag, app, cap, mod, unm in ((False, "rt_app_F", "rt_cap_F", "rt_mod_F", "rt_unm_F"),
                                          (True, "rt_app_T", "rt_cap_T", "rt_mod_T", "rt_unm_T")):
@@ -1088,7 +1103,7 @@ def run(rep, tier):
                     what = "Deserializer(cls).deserialize(Serializer(x).serialize()) != x although no field is dropped and keys are distinct"
                 rep.finding(key, what + f" (camel_case_convert={flag})",
                             {"h": c["h"], "override": c["override"], "x": c["x"], "entry": c.get("entry", "wrapper"),
-                             "clause": "roundtrip", "flag": flag,
+                             "history": c.get("history", "fresh"), "clause": "roundtrip", "flag": flag,
                              "python": python_src(c, o[1])})
         for i, c, o in live:
             for flag in (False, True):
@@ -1111,7 +1126,7 @@ def run(rep, tier):
             rep.broken("correspondence:mappers",
                        f"model (Ser/Mappers.v) and typedpy differ on {len(mism)} generated cases (parts: {parts}); "
                        "no clause of C07 failed on any explored input",
-                       {"h": c["h"], "override": c["override"], "x": c["x"], "entry": c.get("entry", "wrapper"), "parts": parts,
+                       {"h": c["h"], "override": c["override"], "x": c["x"], "entry": c.get("entry", "wrapper"), "history": c.get("history", "fresh"), "parts": parts,
                         "observed": {str(f): {k: o[0][f][k] for k in ("ser_agg", "des_agg", "doc", "back")} for f in (False, True)},
                         "python": python_src(c, o[1])})
         elif mism:
